@@ -142,6 +142,16 @@ class GwHooks(LawHooks):
             return Sym(("CT", attr))
         return super().attr(base, attr)
 
+    def comprehension(self, sm, n, st):
+        # {k: all_lims[k] for k in self._get_limits()}   -> the same restriction marker as the loop form
+        if isinstance(n, ast.DictComp) and len(n.generators) == 1 and not n.generators[0].ifs and isinstance(n.generators[0].target, ast.Name):
+            g = n.generators[0]
+            k = g.target.id
+            if ast.unparse(g.iter) == "self._get_limits()" and isinstance(n.key, ast.Name) and n.key.id == k and isinstance(n.value, ast.Subscript) \
+                    and isinstance(n.value.value, ast.Name) and isinstance(n.value.slice, ast.Name) and n.value.slice.id == k:
+                return Sym(("RESTRICT", vkey(st.env.get(n.value.value.id)), "self._get_limits()"))
+        return None
+
     def loop(self, sm, node, st):
         # for k in self._get_limits(): lims[k] = all_lims[k]   -> restriction marker
         if isinstance(node, ast.For) and isinstance(node.target, ast.Name) and len(node.body) == 1 and isinstance(node.body[0], ast.Assign):
